@@ -12,8 +12,10 @@ def run(ctx):
     quick = ctx.tier == "quick"
     if not quick:
         broken += ctx.leanchecker(["PPLV.Props.C01"])
-    pc.run_poly(ctx, ops="c01", n_hist=1500 if quick else 40000, length=12 if quick else 30,
-                maxdim=3 if quick else 4)
+    pc.run_poly(ctx, ops="c01", n_hist=1500 if quick else 12000, length=12 if quick else 16, maxdim=3)
+    if not quick:
+        # dimension 4 makes the exact oracle (Fourier-Motzkin fallback) expensive: a smaller, shorter batch
+        pc.run_poly(ctx, ops="c01", n_hist=1500, length=10, maxdim=4, first=100000, tag="c01 dim4")
     broken += c01_status.run(ctx)          # stage 2: the lazy status protocol (proof + status correspondence)
     broken += c01_conv.run(ctx)            # stage 3: the double-description engine (conversion / simplify / minimize)
     broken += c01_full.run(ctx)            # integration stage: the whole Polyhedron object, histories through the full model
